@@ -57,7 +57,8 @@ def _dl(st, m):
     return st.objs[m.oid]["attr:reactions"]
 
 
-# ---------------------------------------------------------------- assumed: linear_reaction_coefficients(model)
+# ---------------------------------------------------------------- linear_reaction_coefficients(model): declared here with assumed=True;
+# contracts/c17_lrc.py (imported by props/C17.py) clears the flag, adds the precondition / loop invariant and PROVES the body
 def _lrc_result(eng, st, E):
     return alloc_dict(st, "ref:Reaction", "real", base="lrc")
 
